@@ -31,6 +31,8 @@ type ScheduleSpec struct {
 	KeepSilent bool // the silent minority stays silent (dead) during the fair suffix
 	DupProb    float64 // probability that a submission repeats the bytes of an earlier one
 	EmptyProb  float64 // probability that a submission is the empty transaction
+	FFResets   int     // number of times a validator loses its data and fast-syncs back
+	FFSingleServer bool // only one (random) peer answers fast-forward requests
 }
 
 type shapeState struct {
@@ -125,6 +127,10 @@ func (nw *Network) RunSchedule(sp ScheduleSpec) {
 		st := sp.Steps * 8 / 10
 		acts[st] = append(acts[st], mAct{"rejoin"})
 	}
+	for i := 0; i < sp.FFResets; i++ {
+		st := sp.Steps/5 + rng.Intn(sp.Steps*7/10+1)
+		acts[st] = append(acts[st], mAct{"ffreset"})
+	}
 	joinCount := 0
 
 	if sp.CallbackTxProb > 0 {
@@ -195,6 +201,43 @@ func (nw *Network) RunSchedule(sp ScheduleSpec) {
 						nw.leaving[l.Idx] = nw.RequestLeave(l)
 					}
 				}
+			case "ffreset":
+				// a validator whose events are all known to everybody loses its
+				// data and comes back with fast-sync enabled
+				if len(b) < 3 {
+					break
+				}
+				x := b[rng.Intn(len(b))]
+				if x.Core.Validators().ByID[x.ID] == nil {
+					break
+				}
+				allKnow := true
+				mine := x.Core.KnownEvents()[x.ID]
+				for _, o := range b {
+					if o.Core.KnownEvents()[x.ID] != mine {
+						allKnow = false
+					}
+				}
+				if !allKnow {
+					// postpone to a later step
+					acts[step+3] = append(acts[step+3], mAct{"ffreset"})
+					break
+				}
+				o := x.Opts
+				o.FastSync = true
+				cur := clonePeers(x.Core.Peers().Peers)
+				if err := nw.startNode(x, o, cur, clonePeers(nw.Genesis)); err == nil {
+					nw.Res.count("ffreset_restarts", 1)
+					if sp.FFSingleServer {
+						others := []*SimNode{}
+						for _, q := range b {
+							if q != x {
+								others = append(others, q)
+							}
+						}
+						nw.FFServe = map[int]bool{others[rng.Intn(len(others))].Idx: true}
+					}
+				}
 			case "rejoin":
 				for _, n := range nw.Nodes {
 					if n.Left && n.Node != nil && n.Node.GetState() == _state.Suspended {
@@ -242,6 +285,7 @@ func (nw *Network) RunSchedule(sp ScheduleSpec) {
 		for _, n := range nw.upReal() {
 			if n.Node.GetState() == _state.CatchingUp && !n.Silent {
 				nw.FastForward(n)
+				nw.FFServe = nil
 				acted = true
 				break
 			}
